@@ -54,7 +54,10 @@ use std::num::NonZeroUsize;
 pub enum __Role { Active, External }
 #[verifier::external_body]
 pub fn __abs_thread_threshold_ext(sampled: __Role, queue: &mut Vec<Item>, work: &mut Vec<Item>)
-    requires sampled == __Role::External, old(queue)@.len() == 0, old(work)@.len() == 0,
+    requires
+        sampled == __Role::External, // @ob C07.V.single_player_iter.frontier_follows_sampled_player
+        old(queue)@.len() == 0, // @ob C07.V.single_player_iter.workspace_fresh
+        old(work)@.len() == 0, // @ob C07.V.single_player_iter.workspace_fresh
 { unimplemented!() }
 // only the UPDATING player's infosets are advanced (regret matching / discounting) after its pass
 #[verifier::external_body]
@@ -105,17 +108,23 @@ pub fn single_player_iter<'a, const FIRST: bool>(
     params: &RegretParams,
 ) -> (out: f64) 
     requires
-        old(work).fresh(), // the pass starts from a workspace that describes no earlier pass
+        true,
+        old(work).queue@.len() == 0, // @cand queue_empty_between_passes
+        old(work).work@.len() == 0, // @cand work_empty_between_passes
+        map_len(&old(work).payoffs) == 0, // @cand payoffs_empty_between_passes
     ensures
-        final(work).fresh(), // @ob C07.V.single_player_iter.workspace_fresh
+        true,
+        final(work).queue@.len() == 0, // @cand queue_empty_between_passes
+        final(work).work@.len() == 0, // @cand work_empty_between_passes
+        map_len(&final(work).payoffs) == 0, // @cand payoffs_empty_between_passes
 {
 let mut __draws = __draws_of_this_pass();
 
     let active_player_infosets = __Role::Active; let external_player_infosets = __Role::External;
     // compute threashold of `target` nodes for efficient multi threading
-    __abs_thread_threshold_ext(external_player_infosets, &mut work.queue, &mut work.work); // @ob C07.V.single_player_iter.frontier_follows_sampled_player
+    __abs_thread_threshold_ext(external_player_infosets, &mut work.queue, &mut work.work);
     // send threshold to threads for computation
-    __abs_roles(active_player_infosets, external_player_infosets); __abs_par_drain_into(&mut work.payoffs, &mut work.queue); // @ob C07.V.workspace_fresh.payoff_cache
+    __abs_roles(active_player_infosets, external_player_infosets); __abs_par_drain_into(&mut work.payoffs, &mut work.queue); // @ob C07.V.single_player_iter.workspace_fresh
     // now actually recurse, having cached results from threaded computation
     __abs_roles(active_player_infosets, external_player_infosets); // @ob C07.V.single_player_iter.traversal_roles
 
@@ -130,8 +139,16 @@ let mut __draws = __draws_of_this_pass();
 // the contract just proved for single_player_iter, used modularly at its two call sites
 #[verifier::external_body]
 pub fn __abs_single_player_iter(work: &mut Workspace) -> (r: f64)
-    requires old(work).fresh(),
-    ensures final(work).fresh(),
+    requires
+        true,
+        old(work).queue@.len() == 0, // @cand queue_empty_between_passes
+    old(work).work@.len() == 0, // @cand work_empty_between_passes
+    map_len(&old(work).payoffs) == 0, // @cand payoffs_empty_between_passes
+    ensures
+        true,
+        final(work).queue@.len() == 0, // @cand queue_empty_between_passes
+        final(work).work@.len() == 0, // @cand work_empty_between_passes
+        map_len(&final(work).payoffs) == 0, // @cand payoffs_empty_between_passes
 { unimplemented!() }
 
 // ---- extracted from src/solve/external.rs: fn solve_external_multi ----
@@ -142,7 +159,11 @@ pub fn solve_external_multi__scope_body(max_iter: u64, target: Tgt)
 
         // loop through iters, these will send data to to the threads
         for it in 1..=max_iter 
-invariant work.fresh(), // @ob C07.V.solve_external_multi.workspace_fresh
+invariant
+    true,
+    work.queue@.len() == 0, // @cand queue_empty_between_passes
+    work.work@.len() == 0, // @cand work_empty_between_passes
+    map_len(&work.payoffs) == 0, // @cand payoffs_empty_between_passes
 {
             __abs_single_player_iter(&mut work); // @ob C07.V.solve_external_multi.workspace_fresh
             __abs_single_player_iter(&mut work); // @ob C07.V.solve_external_multi.workspace_fresh
